@@ -46,6 +46,9 @@
 //!   [in <o>]* wc <o> <b>          `owners[o].with_cleanup(|| body b)`
 //!   child <o>                     `owners[o].child()`
 //!   drop <o>                      drop the harness's handle (last strong reference for plain owners)
+//!   unset <o>                     `owners[o].set(); owners[o].unset()` with the harness's handle: the way a server
+//!                                 response ends its root (F-C08-4: the owner used to be dropped, and its cleanups run,
+//!                                 while the thread-local current owner was mutably borrowed)
 //!   dispose <i|s|m|e> <k>         `.dispose()` on that handle
 //!   set <s> <v>                   `sigs[s].try_set(v)`
 //!   pause <o> | resume <o>
@@ -1504,14 +1507,21 @@ fn op_line(words: &[&str]) -> Option<bool> {
             });
             Some(true)
         }
-        ["drop", o] => {
+        ["drop", o] | ["unset", o] => {
+            let unset = rest[0] == "unset";
             let o = num(o)?;
             let Some(owner) = w(|w| w.owners.get_mut(o).and_then(|x| x.take())) else {
                 return Some(false);
             };
-            drop(owner);
+            if unset {
+                // the cleanups of the root run inside `unset`, with no owner current
+                owner.set();
+                owner.unset();
+            } else {
+                drop(owner);
+            }
             w(|w| {
-                w.tags.insert("drop");
+                w.tags.insert(if unset { "unset" } else { "drop" });
                 let so = w.sh.o_map[o];
                 w.sh_drop_holder(so);
             });
@@ -2003,6 +2013,7 @@ fn gen_random_case(rng: &mut Rng, name: String, big: bool) -> Vec<String> {
                 _ => "idle".to_string(),
             },
             78..=83 => match pick_o(rng) {
+                Some(o) if rng.chance(1, 3) => format!("unset {o}"),
                 Some(o) => format!("drop {o}"),
                 None => "idle".to_string(),
             },
@@ -2059,6 +2070,7 @@ fn gen_matrix() -> Vec<Vec<String>> {
     ];
     let kinds = ["m", "e", "E", "I", "w", "W", "y", "Y", "v", "a", "wc", "V", "j", "J", "q", "Q"];
     let mut out = vec![];
+    out.extend(gen_unset_matrix());
     out.extend(gen_ctx_matrix());
     out.extend(gen_task_matrix());
     // the recursive shape: the body writes one of its own dependencies after allocating
@@ -2134,6 +2146,45 @@ fn gen_matrix() -> Vec<Vec<String>> {
                 l.push("end".into());
                 out.push(l);
             }
+        }
+    }
+    out
+}
+
+/// a root ended by `set(); unset()` with its last handle: cleanups that consult the current owner while they
+/// run (`n<tag>`: `on_cleanup` + `StoredValue::new` inside the cleanup) registered on the root, on a retained
+/// child, on a dropped-handle child, in an effect's scope, in a memo's scope; every cleanup exactly once,
+/// descendants first, no panic
+fn gen_unset_matrix() -> Vec<Vec<String>> {
+    let mut out = vec![];
+    let places: [(&str, &[&str]); 6] = [
+        ("root", &["in 0 x n5", "in 0 x c6"]),
+        ("child-held", &["child 0", "in 1 x n5", "in 0 x c6"]),
+        ("grandchild", &["child 0", "child 1", "in 2 x n5", "in 1 x c6", "in 0 x n7"]),
+        ("effect", &["body r0,n5,c6,i3", "in 0 x s1", "in 0 x e0", "idle"]),
+        ("memo", &["body r0,n5,i3", "in 0 x s1", "in 0 x m0", "x g0"]),
+        ("mix", &["body r0,n5,u0", "in 0 x s1", "in 0 x p0.4", "child 0", "in 1 x e0", "in 1 x n6", "idle", "in 0 x n7"]),
+    ];
+    for (name, setup) in places {
+        for tail in 0..3 {
+            let mut l = vec![format!("case un-{name}-{tail}"), "x o".to_string()];
+            l.extend(setup.iter().map(|s| s.to_string()));
+            match tail {
+                0 => {}
+                1 => l.push("cleanup 0".into()),
+                _ => {
+                    l.push("in 0 x n8".into());
+                    l.push("in 0 x k0".into());
+                }
+            }
+            // tail 2 needs a body for the task when the setup defines none
+            if tail == 2 && !setup.iter().any(|s| s.starts_with("body")) {
+                l.insert(1, "body i2".into());
+            }
+            l.push("unset 0".into());
+            l.push("idle".into());
+            l.push("end".into());
+            out.push(l);
         }
     }
     out
